@@ -85,6 +85,10 @@ func funcArrayShuttle(ctx *Context, this *VMValue, params []*VMValue) *VMValue {
 
 func funcArrayRand(ctx *Context, this *VMValue, params []*VMValue) *VMValue {
 	arr, _ := this.ReadArray()
+	if len(arr.List) == 0 {
+		ctx.Error = errors.New("(arr.rand)无法从空数组中随机取值")
+		return nil
+	}
 	return arr.List[int(Roll(ctxRandSrc(ctx), IntType(len(arr.List)), 0))-1]
 }
 
@@ -95,6 +99,10 @@ func funcArrayRandSize(ctx *Context, this *VMValue, params []*VMValue) *VMValue 
 	arr, _ = newArr.ReadArray()
 
 	if val, ok := params[0].ReadInt(); ok {
+		if val < 0 || val > IntType(len(arr.List)) {
+			ctx.Error = errors.New("(arr.randSize)取值个数超出数组范围")
+			return nil
+		}
 		arr.List = arr.List[:val]
 		return newArr
 	} else {
